@@ -64,6 +64,42 @@ def native_replay(crate, hfile, test_text, timeout=900):
             "tail": "\n".join(out.strip().split("\n")[-25:])}
 
 
+def native_demonstration(crate, dm, timeout=900):
+    """Run the integration test kept for a repaired defect against the scratch copy of the tree under check
+    (the inserted verification modules are cfg(kani) only, i.e. absent from this native build)."""
+    src = os.path.join(VERIF, dm["demo"])
+    name = "verif_demo_%s" % re.sub(r"[^a-z0-9]", "_", dm["defect"].lower())
+    res = {"defect": dm["defect"], "demo": dm["demo"]}
+    # a pristine copy of the tree under check (the instrumented copy carries kani-only contract attributes)
+    plain = os.path.join(os.path.dirname(crate), "crate_native")
+    dst = os.path.join(plain, "tests", name + ".rs")
+    try:
+        if os.path.isdir(plain):
+            shutil.rmtree(plain)
+        os.makedirs(plain)
+        for f in ("Cargo.toml", "Cargo.lock", "README.md"):
+            if os.path.exists(os.path.join(REPO, f)):
+                shutil.copy2(os.path.join(REPO, f), os.path.join(plain, f))
+        shutil.copytree(os.path.join(REPO, "src"), os.path.join(plain, "src"))
+        crate = plain
+        os.makedirs(os.path.dirname(dst), exist_ok=True)
+        with open(src) as f, open(dst, "w") as g:
+            g.write(f.read())
+        cmd = ["cargo", "test", "--offline", "--test", name] + (["--release"] if dm.get("release") else [])
+        rc, out, wall = vlib.sh(cmd, cwd=crate, timeout=timeout, env={"CARGO_TARGET_DIR": os.path.join(os.path.dirname(crate), "target_demo")})
+        failed = rc not in (0, 124) and ("panicked at" in out or "FAILED" in out) and "could not compile" not in out
+        res.update({"cmd": " ".join(cmd), "rc": rc, "wall_s": round(wall, 1), "failed_on_this_tree": failed,
+                    "output_tail": "\n".join(out.strip().split("\n")[-25:])})
+    except Exception as e:   # never let the demonstration step turn a report into a crash
+        res["error"] = repr(e)
+    finally:
+        try:
+            os.remove(dst)
+        except OSError:
+            pass
+    return res
+
+
 def report_violation(pid, tier, crate, failed, out_text, prop, flags_of=None):
     """Write replay files, try native replay, print VIOLATION lines. Returns count of violations."""
     rdir = os.path.join(vlib.OUT, "replays", pid)
@@ -130,6 +166,13 @@ def report_violation(pid, tier, crate, failed, out_text, prop, flags_of=None):
                     rep["natively_failed_obligation"] = nm.group(1)
                     if first["kind"] != "named":
                         first = dict(first, name=nm.group(1))
+        if not native_ok:
+            # a native demonstration of the repaired defect this obligation guards, run on the tree under check
+            dm = next((P.REGRESSION_DEMOS[f["name"]] for f in fs if f["name"] in getattr(P, "REGRESSION_DEMOS", {})), None)
+            if dm:
+                nd = native_demonstration(crate, dm)
+                rep["native_demonstration"] = nd
+                native_ok = bool(nd.get("failed_on_this_tree"))
         if not native_ok:
             suffix = " no-failing-input-found"
         rep["replayed_natively_on_real_code"] = native_ok
